@@ -61,6 +61,13 @@ def _expr_place(body, place, depth=0, stop=()):
                         base = ("proj", base, c)
                     return base
         idx = []
+        # a reference local made by `&base[i]`: the element it points to keeps that index
+        if proj and proj[0]["k"] == "deref" and not (1 <= l <= body["argc"]):
+            ds_ = mir.defs(body).get(l, [])
+            if len(ds_) == 1 and ds_[0][0] == "stmt" and ds_[0][3]["rv"].get("k") in ("ref", "addrof") and not mir.partial_defs(body).get(l):
+                for pe in ds_[0][3]["rv"].get("place", {}).get("p", []):
+                    if pe["k"] == "index":
+                        idx.append(_freeze(expr_local(body, pe["local"], depth + 1, stop)))
         for pe in proj:
             if pe["k"] == "index":
                 ie = expr_local(body, pe["local"], depth + 1, stop)
